@@ -197,7 +197,10 @@ class C02(Property):
           tails.append({"st": name, "p": STAGES[name]["params"](W)})
         else:
           tails.append(None)
-    return {"srcs": srcs, "base": base, "fan": fan, "tails": tails}
+    return {"srcs": srcs, "base": base, "fan": fan, "tails": tails,
+            # the same pipeline built twice over separate sources: state
+            # kept outside the stage objects (caches, module globals) shows
+            "twin": W.chance("twin", 1, 5)}
 
   def shrink_candidates(self, wl):
     # drop the fan-out, drop tails, peel stages, shorten sources
@@ -350,25 +353,27 @@ class C02(Property):
       # once more per terminal attempt.
       if self.frozen is None:
         self.frozen = dict((sid, s.delivered) for sid, s in real_src.items())
+    offsets = [0, 100] if wl.get("twin") else [0]
     for sid_s, spec in sorted(wl["srcs"].items()):
-      sid = int(sid_s)
-      vf = (lambda i, k=spec["kind"], s=sid: src_value(k, s, i))
-      real_src[sid] = SimSource(sid, spec["len"], vf)
-      model_src[sid] = SimSource(sid, spec["len"], vf)
-      model_src[sid].budget, model_src[sid].slack = MODEL_READ_CAP, 0
-      real_src[sid].budget, real_src[sid].slack = 0, 48
-      real_src[sid].on_eof = on_eof
+      for off in offsets:
+        sid = int(sid_s) + off
+        vf = (lambda i, k=spec["kind"], s=int(sid_s): src_value(k, s, i))
+        real_src[sid] = SimSource(sid, spec["len"], vf)
+        model_src[sid] = SimSource(sid, spec["len"], vf)
+        model_src[sid].budget, model_src[sid].slack = MODEL_READ_CAP, 0
+        real_src[sid].budget, real_src[sid].slack = 0, 48
+        real_src[sid].on_eof = on_eof
       if spec["len"] is None:
         res.counters["fault.endless"] += 1
     used = []
 
-    def build(node, real):
+    def build(node, real, off=0):
       if "src" in node:
-        if real and node["src"] not in used:
-          used.append(node["src"])
-        return (real_src if real else model_src)[node["src"]]
+        if real and node["src"] + off not in used:
+          used.append(node["src"] + off)
+        return (real_src if real else model_src)[node["src"] + off]
       st = STAGES[node["st"]]
-      ins = [build(n, real) for n in node["in"]]
+      ins = [build(n, real, off) for n in node["in"]]
       if real:
         return Tap(st["real"](P, ins, node["p"]), on_eof)
       return M.flagged(st["model"](ins, node["p"]))
@@ -407,6 +412,19 @@ class C02(Property):
       raise _Mismatch("construction-raised", "building %s raised %s"
                       % (self.describe(wl), got[1]))
     real_ends, model_ends = got[1]
+    if wl.get("twin"):
+      got = self._guarded("twin construction", lambda: self._fan_out(
+        wl, build(wl["base"], True, 100), build(wl["base"], False, 100)))
+      if got[0] == "stall":
+        raise _Mismatch("construction-read:" + self._culprit(wl),
+                        "building %s a second time: %s"
+                        % (self.describe(wl), got[1]))
+      if got[0] != "ok":
+        raise _Mismatch("construction-raised", "building %s a second time "
+                        "raised %s" % (self.describe(wl), got[1]))
+      real_ends = real_ends + got[1][0]
+      model_ends = model_ends + got[1][1]
+      res.counters["probe.same-pipeline-built-twice"] += 1
     self._compare(wl, real_src, model_src, "construction", events, used)
     events.append("built " + self.describe(wl))
 
